@@ -9,7 +9,7 @@ func ruleC14(c *Check, p *Prog) {
 	c.Explanation = "Decides only the structural rejection chain, each link a necessary condition (cut any one and a stuck-at source can pass): " +
 		"(i) registry item 3 is the poker test and its runner is PokerTestBytes(data, 8); (ii) all six multi-sample workflows apply the pass-count criterion counters[i] < Threshold(s) to EVERY item including item 3, " +
 		"and Threshold(20) = 19 > 0, Threshold(50) = 48 > 0 by constant folding of the extracted closed form, so an item that never passes fails the detection; " +
-		"(iii) SingleDetect returns P >= Alpha of the poker test of exactly the bytes read; (iv) the byte-level poker histogram counts every byte of the sample (equivalence of PokerTestBytes with its reference). " +
+		"(iii) SingleDetect returns P >= Alpha of the poker test of exactly the bytes read; (v) in every workflow the sample judged is the buffer filled by io.ReadFull from the workflow's own source (R-READFULL / R-FRESH-SAMPLE / R-SERIAL, as in C10); (iv) the byte-level poker histogram counts every byte of the sample (equivalence of PokerTestBytes with its reference). " +
 		"Arithmetic lemma (not code): with at most p distinct byte values among N bytes, sum n_i^2 >= N^2/p, hence V >= (256/p - 1) N. " +
 		"NOT decided: that igamc(127.5, V/2) < 0.01 for such V, i.e. that a periodic sample actually lies in the rejection tail - a numeric fact about the incomplete gamma function (C06 pins the algorithm, not its values)."
 	// (i)
@@ -20,6 +20,9 @@ func ruleC14(c *Check, p *Prog) {
 	for i, name := range []string{"Round15", "Round12"} {
 		checkRound(c, p, name, []int64{15, 12}[i], i == 1)
 	}
+	// (v) what is judged is what was read from the workflow's own source (a worker that falls back to another reader
+	// judges something else)
+	checkSampleProvenance(c, p)
 	// (ii)
 	for _, ref := range seqRefs {
 		d := analyzeSeq(c, p, ref.Name, map[string]bool{})
